@@ -129,9 +129,12 @@ def render_file(decls, lay=None):
 def write_program(prog, outdir, lay=None):
     """Writes every file of the program; returns path of the main file."""
     paths = {}
+    prog["_texts"] = {}
     for name, decls in prog["files"].items():
         p = os.path.join(outdir, name + ".bitproto")
+        txt = render_file(decls, lay)
         with open(p, "w") as f:
-            f.write(render_file(decls, lay))
+            f.write(txt)
+        prog["_texts"][name] = txt
         paths[name] = p
     return paths[prog["main"]], paths
